@@ -126,6 +126,9 @@ type X struct {
 	entryState *State
 	retHook    func(v Val)
 	siteAsserts []SiteAssert
+	axiomVer    int
+	arbs        map[string]TV
+	axDone      map[string]bool
 	readPats   map[string]*regexp.Regexp
 	sideConds []sideCond
 }
